@@ -6,6 +6,12 @@ import pipeline_engine as PE
 import vf
 
 
+import gen_line as GL
+# label sets that differ only in where a would-be separator character falls: {a="pSq", bc="r"} and {a="p", bc="qSr"}; and keys that are FNV-64 twins
+SHIFTS = [b"|#a:p" + x + b"q,bc:r" for x in GL.SEPARATORS] + [b"|#a:p,bc:q" + x + b"r" for x in GL.SEPARATORS] + \
+         [b"|#" + GL.FNV64_TWINS[0] + b":eu", b"|#" + GL.FNV64_TWINS[1] + b":eu", b"|#" + GL.FNV64_TWINS[1] + b":eu," + GL.FNV64_TWINS[0] + b":us"]
+
+
 def cfg_for(rnd):
     rules = []
     for i, mmt in enumerate(rnd.sample([b"counter", b"gauge", b"observer", None], rnd.randint(2, 4))):
@@ -24,7 +30,7 @@ def gen_case(rnd):
                            # keys that need escaping beyond ASCII (a non-ASCII digit, letters whose low byte is a delimiter), a key that clashes with
                            # a rule label only after escaping, and two label sets whose names / values concatenate to the same bytes
                            b"|#shard\xd9\xa3:tag", b"|#shard_:t,shard\xd9\xa3:u", "|#\u0440\u0435\u0433\u0438\u043e\u043d:eu,\u043a\u043b\u0430\u0441\u0442\u0435\u0440:a1".encode(),
-                           b"|#a:a,bc:bc", b"|#ab:a,c:bc", b"|#a:ab,bc:c", b"|#" + b"K" * 70 + b":v"])
+                           b"|#a:a,bc:bc", b"|#ab:a,c:bc", b"|#a:ab,bc:c", b"|#" + b"K" * 70 + b":v"] + SHIFTS + SHIFTS)
         r = rnd.random()
         if r < 0.5 and not tags:
             samples = [rnd.choice([b"1|c", b"2|g", b"+3|g", b"4|ms", b"5|h", b"6|c|@0.5", b"7|ms|@0.5"]) for _ in range(rnd.randint(2, 4))]
